@@ -437,6 +437,38 @@ def quote_model(s, safe="/"):
     return SSeq("str", out, len(out))
 
 
+def unquote_model(s, encoding="utf-8", errors="replace"):
+    """urllib.parse.unquote on symbolic text: '%XX' -> that byte, any other character -> its
+    UTF-8 bytes, the whole decoded with (encoding, errors).  (The real function decodes each
+    ASCII run separately; the results coincide because a raw non-ASCII character never starts
+    or continues a partial sequence left by an escape.)  Validated natively on every path."""
+    import z3
+
+    from symex.core import ctx
+    from symex.seq import SSeq, sconcat
+
+    c = ctx()
+    es = s.celems()
+    out = SSeq("bytes", [], 0)
+    i = 0
+
+    def hexval(e):
+        return z3.If(z3.ULE(e, 57), e - 48, z3.If(z3.ULE(e, 70), e - 55, e - 87))
+
+    def ishex(e):
+        return z3.Or(z3.And(z3.UGE(e, 48), z3.ULE(e, 57)), z3.And(z3.UGE(e, 65), z3.ULE(e, 70)), z3.And(z3.UGE(e, 97), z3.ULE(e, 102)))
+
+    while i < len(es):
+        if i + 2 < len(es) and c.decide(z3.And(es[i] == 37, ishex(es[i + 1]), ishex(es[i + 2]))):
+            v = z3.simplify(z3.Extract(7, 0, hexval(es[i + 1]) * 16 + hexval(es[i + 2])))
+            out = sconcat(out, SSeq("bytes", [v], 1))
+            i += 3
+        else:
+            out = sconcat(out, s[i:i + 1].encode("utf-8"))
+            i += 1
+    return out.decode(encoding or "utf-8", errors or "replace")
+
+
 def make_stubs():
     import urllib.parse
 
